@@ -66,7 +66,7 @@ _CFG = {
     "C14": {"streams": [VT, RENDER_INFO], "scenarios": ["prints"], "rule": RENDER_RULE, "trusted": RENDER_TRUST},
     "C15": {"streams": [DETECT, READER], "rule": INPUT_RULE, "trusted": INPUT_TRUST},
     "C16": {"scenarios": ["filter"], "streams": [PTRACE], "trusted": RUNTIME_TRUST},
-    "C17": {"scenarios": ["exec"], "streams": [GLUE], "trusted": RENDER_TRUST + ["input hand-over to the exec'd command depends on cancelreader/epoll semantics: observed on an os.Pipe, not proved"]},
+    "C17": {"scenarios": ["exec", "pty"], "streams": [GLUE], "trusted": RENDER_TRUST + ["input hand-over to the exec'd command depends on cancelreader/epoll semantics: observed on an os.Pipe, not proved"]},
     "C18": {"scenarios": ["pty", "term", "sigexec"], "trusted": RUNTIME_TRUST + ["kernel signal delivery, os/signal.Notify, TIOCGWINSZ/SIGWINCH are outside the model: observed on a pty, not proved"]},
     "C19": {"streams": [RENDER_LE, {"name": "fps", "quick": 2000, "thorough": 100000}], "scenarios": ["frames"], "rule": RENDER_RULE, "trusted": RENDER_TRUST},
     "C20": {"streams": [{"name": "every", "quick": 6000, "thorough": 200000}], "scenarios": ["timing"],
